@@ -68,6 +68,9 @@ THEOREMS = [
     "Bin1d.magnitudeCounts_bin_allowed", "Bin1d.magnitudeBins_regular", "Bin1d.createSpaceMagnitudeRegion_spec",
     # Properties/C02_Int.lean: integer points on integer edges are binned exactly
     "Bin1d.quotF_cfgInt", "Bin1d.bin1dCore_cfgInt", "Bin1d.floor_fl64_div_int", "Bin1d.bin1dF_int_exact",
+    # Properties/C02_Tol.lean: the band of the `tol=` override and of integer points on float64 edges
+    "Bin1d.quotF_cfgTol", "Bin1d.quotF_cfgIntPts", "Bin1d.bin1dCore_gen", "Bin1d.bin1dF_gen_upper", "Bin1d.bin1dF_tol_upper",
+    "Bin1d.bin1dF_intpts_upper", "Bin1d.magCfg_tol_eq",
 ]
 TRUSTED = ["Lean 4.33 kernel", "axioms: propext, Classical.choice, Quot.sound at most",
            "Soft64.fl64/fl32 is IEEE-754 round-to-nearest-even and numpy + - * / floor on float64/float32 are that arithmetic "
@@ -85,7 +88,9 @@ RULE = ("grids: decimal grids with 1-4 decimals (|start| << step, ~ step, >> ste
         "(grid, mode, value)"
         " Call sites (harness/c02_calls.py): CSEPCatalog.get_mag_idx / magnitude_counts(mag_bins, tol, retbins), GriddedForecast.get_magnitude_index(mags, tol) "
         "for float64 / list / float32 / int64 magnitudes, create_space_magnitude_region, on the CSEP grid, magnitude_bins grids and random decimal grids with "
-        "tol in {None, 1e-5, 1e-9, 0.0}, magnitudes on and around edges and 0.5 / 2.5 / 3 tolerances below them; judged by the exact oracle, not against bin1d_vec")
+        "tol in {None, 1e-5, 1e-9, 0.0}, magnitudes on and around edges and 0.5 / 2.5 / 3 tolerances below them; judged by the exact oracle, not against bin1d_vec; sessions of 5-10 calls on ONE shared edge array "
+        "(region magnitudes of two catalogs and a forecast) and one value array with in-place edits and re-binding of the edges by the caller, every result judged against the "
+        "edges in force at that moment, inputs snapshotted; NaN / -inf observed; more than 2^16 events in one bin; more than 2^16 edges")
 
 EPS = {"f64": Fraction(1, 2 ** 52), "f32": Fraction(1, 2 ** 23), "i64": Fraction(0)}
 NPDT = {"f64": numpy.float64, "f32": numpy.float32, "i64": numpy.int64}
@@ -984,7 +989,12 @@ def run_case(ctx, case):
     elif kind == "calls":
         from . import c02_calls
         import sys
-        if "grid" in case and case["grid"].get("kind"):
+        if case.get("what") == "session" and "grid" in case:
+            for _ in range(40):
+                c02_calls.session(ctx, sys.modules[__name__], case["grid"], "quick")
+        elif case.get("what") in ("nonfinite", "big"):
+            c02_calls.nonfinite_and_sizes(ctx, sys.modules[__name__], "quick")
+        elif "grid" in case and case["grid"].get("kind"):
             c02_calls.check_calls_on_grid(ctx, sys.modules[__name__], build_grid(case["grid"]), "replay")
         else:
             c02_calls.run_calls(ctx, sys.modules[__name__], "quick")
